@@ -263,6 +263,17 @@ http_res_parse_line(nng_http *conn, uint8_t *line)
 	*reason = '\0';
 	reason++;
 
+	// The status code is exactly three digits (RFC 9110 15).  Note that
+	// atoi on its own also accepts leading white space, a sign, and
+	// trailing garbage.
+	for (int i = 0; i < 3; i++) {
+		if ((codestr[i] < '0') || (codestr[i] > '9')) {
+			return (NNG_EPROTO);
+		}
+	}
+	if (codestr[3] != '\0') {
+		return (NNG_EPROTO);
+	}
 	status = atoi(codestr);
 	if ((status < 100) || (status > 999)) {
 		return (NNG_EPROTO);
